@@ -319,6 +319,12 @@ def run_model(case):
     # releases at steps 0, 1 and 3: particles released last (highest pids) near the outflow edge die first, later releases follow
     rows = [dict(release_time=world.iso(S0 + (0, 1, 3)[k % 3] * DT), X=x, Y=y, Z=3.0) for k, (x, y) in enumerate(P)]
     rows.sort(key=lambda r: r["release_time"])
+    # every fourth particle is released settled: the release file carries the flag as a 0/1 column; it is alive, it must never move
+    settled = {}
+    for k, r in enumerate(rows):
+        r["active"] = 0 if k % 4 == 2 else 1
+        if not r["active"]:
+            settled[k] = (r["X"], r["Y"])  # rows are released in file order: row k gets pid k
     layout = case.get("layout", "sparse")
     conf = drive.roms_conf(d, d / "f.nc", S0, S0 + 5 * DT, DT, rows, tracker=dict(advection=case["scheme"]), layout=layout)
     bad, facts = [], dict(left=0, n=len(P))
@@ -333,6 +339,8 @@ def run_model(case):
             if seen_alive.get(pid) is False and a:
                 bad.append(("alive:resurrected-or-not-killed", f"step {k}: pid {pid} alive again"))
             seen_alive[pid] = a
+            if pid in settled and (x, y) != settled[pid]:
+                bad.append(("inactive:moved", f"step {k}: pid {pid}, released inactive at {settled[pid]}, is at ({x},{y})"))
             if a:
                 if not (math.isfinite(x) and math.isfinite(y)) or not (1.5 < x < 5.5 and 1.5 < y < 4.5):
                     bad.append(("invariant:outside-valid-region", f"step {k}: living pid {pid} at ({x},{y})"))
